@@ -558,6 +558,19 @@ def _spelling_differs(h_opts, f_opts):
     return any(hf[k] != ff[k] for k in hf if k in ff)
 
 
+# Observations that are recorded and counted in the evidence but not (yet) judged - both DO differ from the fresh
+# interpreter on the unchanged tree (reported to the coordinator; flip to True once KNOWN_FINDINGS.txt has the lines):
+#   aliasing: a default_factory container (modes: List[E] = field(default_factory=list)) returned by one parse IS the object
+#             returned by the next parse of the same parser (mutating the first result changes the second)
+#   config_path attribute of the namespace: keeps the value of the first call (the help-only argument is added once)
+JUDGE_ALIASING = False
+JUDGE_CONFIG_PATH_ATTR = False
+
+
+def _extra(o):
+    return [e for e in o.get("extra", []) if JUDGE_CONFIG_PATH_ATTR or e[0] != "config_path"]
+
+
 def divergences(case, obs):
     out = []
     for k, (op, o, fr) in enumerate(zip(case["ops"], obs["obs"], obs["fresh"])):
@@ -567,80 +580,216 @@ def divergences(case, obs):
             out.append((k, "no-oracle"))
         elif o["r"] != fr["r"]:
             out.append((k, "diverges"))
+        elif _extra(o) != _extra(fr):
+            out.append((k, "namespace-extra"))
+        elif o.get("stream") != fr.get("stream"):
+            out.append((k, "stream"))
+        elif JUDGE_ALIASING and o.get("aliased"):
+            out.append((k, "aliased"))
     return out
 
 
-def classify(case, obs, k):
-    """Cause of the divergence at parse k, from what was observed (never from the model): each label needs its evidence,
-    anything else is `unexplained`."""
+def _fid(o):
+    return o.lstrip("-").replace("-", "_").split(".")[-1]
+
+
+def _files_applied(argv):
+    """values of a.my_x the named config files set, in order, up to the first file that cannot be read"""
+    vals, taking = [], False
+    for t in argv:
+        if t == "--config_path":
+            vals, taking = [], True
+        elif t.startswith("-"):
+            taking = False
+        elif taking:
+            if t not in FILES:
+                break
+            vals.append(FILES[t]["a"]["my_x"])
+    return vals
+
+
+def _chosen(argv, model_opts, alts, default):
+    key = default
+    for t, nxt in zip(argv, list(argv[1:]) + [None]):
+        if t in model_opts and nxt in alts:
+            key = nxt
+    return key
+
+
+def classify(case, obs, k, why="diverges"):
+    """Cause of the divergence at parse k, from what was OBSERVED (never from the model).  Every known label demands the
+    evidence of its own mechanism - code path of the exception, which options are registered, which value came back and
+    where that value stems from; a divergence with the same symptom but without that evidence is `unexplained`."""
     op, o, fr = case["ops"][k], obs["obs"][k], obs["fresh"][k]
     if fr is None:
         return "no-oracle"
+    if why != "diverges":
+        return f"unexplained:{why}"
     r, f = o["r"], fr["r"]
     kind = lambda x: x[0] + (str(x[1]) if x[0] != "ok" else "")  # noqa: E731
-    slot = op[1]
+    unexplained = f"unexplained:{kind(f)}->{kind(r)}"
+    slot, argv = op[1], op[2]
     # constructing the parser anew resets everything: only look back to its last construct
     start = max(i for i, p in enumerate(case["ops"][:k]) if p[0] == "construct" and p[1] == slot)
     since = [(p, q) for p, q in list(zip(case["ops"], obs["obs"]))[start:k] if p[1] == slot]
     cfgarg = case["ops"][start][3]
-    late = any(p[0] == "add" and q.get("late") for p, q in since)
-    has_sub = any(p[0] == "add" and any(kd == "sub" for _, kd, _ in CLASSES[p[2]]) for p, _ in since)
-    names_file = lambda argv: any(t.endswith(".json") for t in argv)  # noqa: E731
-    file_before = any(p[0] == "parse" and names_file(p[2]) for p, _ in since)
+    adds = [(p[2], p[3], bool(q.get("late"))) for p, q in since if p[0] == "add"]
+    h_opts, f_opts = o.get("opts", []), fr.get("opts", [])
+    both_ok = r[0] == "ok" and f[0] == "ok"
+    diff_keys = [kv[0] for kv, kf in zip(r[1], f[1]) if kv != kf] if both_ok and len(r[1]) == len(f[1]) else None
+    setup_ops = [(p, q) for p, q in since if q.get("done_after") and p[0] in ("parse", "print_help")]
+
     if any(q.get("in_setup") and q.get("done_after") for _, q in since):
         # an earlier call's set-up raised, yet the parser is marked as set up: it stays half-built
         return "failed-setup-not-redone"
-    if r == ["raise", "ArgumentError"] and f != r and cfgarg and any(p[0] == "parse" for p, _ in since):
+    if r == ["raise", "ArgumentError"] and f != r and cfgarg and any(p[0] == "parse" for p, _ in since) \
+            and "add_argument" in " ".join(o.get("tb", [])):
         return "config-path-readded:ArgumentError"
-    if r == ["raise", "IndexError"] and f != r and any(p[0] == "parse" for p, _ in since):
-        return "tuple-counter:IndexError"
-    h_opts, f_opts = o.get("opts", []), fr.get("opts", [])
-    # the registry of Enum parsing functions: a value of a class the dataclass does not declare, or - when the outcomes
-    # differ in kind - another same-named Enum class was set up earlier in the process and this argv names members
-    my_enums = {d[1] for p, _ in since if p[0] == "add" for _, kd, d in CLASSES[p[2]] if kd == "enum"}
-    def _others_before():
-        seen = set()
-        for p in case["ops"][:k]:
-            if p[0] == "add":
-                seen |= {d[1] for _, kd, d in CLASSES[p[2]] if kd == "enum"}
-        return any(ENUMS[a]["name"] == ENUMS[b]["name"] and a != b for a in my_enums for b in seen)
-    if my_enums and not late:
+
+    # (#12) IndexError raised INSIDE the tuple converter, for an option of a Tuple[int,str] field this argv names, after an
+    # earlier parse of this parser converted that field
+    if r == ["raise", "IndexError"] and f != r:
+        pair_opts = {x for x in h_opts if _fid(x) == "pair"}
+        used_before = any(p[0] == "parse" and any(t in pair_opts for t in p[2]) for p, _ in since)
+        if "_parse_tuple" in o.get("tb", []) and any(t in pair_opts for t in argv) and used_before:
+            return "tuple-counter:IndexError"
+        return unexplained
+
+    # the registry of Enum parsing functions: a member of a class the dataclass does not declare came back; or the outcomes
+    # differ in kind, another same-named Enum class was set up earlier in the process and this argv names members
+    my_enums = {d[1] for c, _, _ in adds for _, kd, d in CLASSES[c] if kd == "enum"}
+    if my_enums and not any(l for _, _, l in adds):
+        seen = {d[1] for p in case["ops"][:k] if p[0] == "add" for _, kd, d in CLASSES[p[2]] if kd == "enum"}
+        others = any(ENUMS[a]["name"] == ENUMS[b]["name"] and a != b for a in my_enums for b in seen)
         if "!foreign" in json.dumps(r):
             return "enum-registry-shared"
-        if r[0] == "ok" and f[0] == "ok":
-            diff = [kv for kv, kf in zip(r[1], f[1]) if kv != kf]
-            if diff and all("enum:" in kv[1] or "enum:" in kf[1] for kv, kf in zip(r[1], f[1]) if kv != kf):
-                return "enum-registry-shared"
-        elif _others_before() and any(t.isupper() for t in op[2]):
+        if both_ok and diff_keys and all("enum:" in v for kv, kf in zip(r[1], f[1]) if kv != kf for v in (kv[1], kf[1])) and others:
             return "enum-registry-shared"
-    if late:
-        return "setup-frozen:late-add"
-    if _spelling_differs(h_opts, f_opts):
+        if not both_ok and others and any(t.isupper() for t in argv):
+            return "enum-registry-shared"
+
+    # ---- the set-up / defaults family (#13, #5').  Several of these can act on one parse; each explains ITS share of the
+    # difference and needs its own evidence; whatever is left over makes the divergence `unexplained`.
+    ids_of = lambda c: {_fid(x) for n, kd, dd in CLASSES[c]  # noqa: E731
+                        for x in ["--" + n] + (["--" + a[2] for a in dd["alts"]] if kd == "sub" else [])}
+    late_dests = [(c, d) for c, d, l in adds if l] if o.get("done_before") else []
+    late_ids = {i for c, _ in late_dests for i in ids_of(c)}
+    opt_diff = set(h_opts) ^ set(f_opts)
+    fresh_setup_failed = bool(fr.get("in_setup"))
+
+    # (late add_arguments) options only the fresh parser has, all of dataclasses added AFTER the set-up
+    late_part = {x for x in opt_diff if x in f_opts and _fid(x) in late_ids}
+    if fresh_setup_failed and late_dests:
+        # the fresh parser could not even be set up (its registered options say nothing); a NONE-mode clash brought in by
+        # the late dataclass is such a failure, and the history must not have registered any option of a late dataclass
+        early_ids = {i for c, _, l in adds if not l for i in ids_of(c)}
+        clash = any(ids_of(c1) & ids_of(c2) for c1, d1 in late_dests for c2, d2, _ in adds if d2 != d1)
+        if f == ["raise", "ConflictResolutionError"] and clash and case["ops"][start][2].get("cr") == "NONE" \
+                and not any(_fid(x) in late_ids - early_ids for x in h_opts):
+            return "setup-frozen:late-add"
+        if r == ["raise", "AttributeError"] and "_remove_subgroups_from_namespace" in o.get("tb", []) \
+                and any(kd == "sub" for c, _ in late_dests for _, kd, _ in CLASSES[c]) \
+                and not any(_fid(x) in late_ids - early_ids for x in h_opts):
+            return "setup-frozen:late-add"
+        return unexplained
+    if not late_dests and _spelling_differs(h_opts, f_opts):
         return "spelling-overwritten"
-    if has_sub and o.get("done_before") and _field_ids(h_opts) != _field_ids(f_opts):
+
+    # (subgroup) the registered options are those of alternative X, the one the op that DID the set-up selected, while
+    # this argv selects Y != X
+    subs = [(c, d, n, dd) for c, d, l in adds if not l for n, kd, dd in CLASSES[c] if kd == "sub"]
+    sub_part, sub_ok, sub_prefix = set(), False, None
+    if subs and o.get("done_before") and setup_ops:
+        c, dest, name, dd = subs[0]
+        alt_of = {a[2]: a[0] for a in dd["alts"]}
+        sub_part = {x for x in opt_diff if _fid(x) in alt_of}
+        frozen = {alt_of[_fid(x)] for x in h_opts if _fid(x) in alt_of}
+        wanted = {alt_of[_fid(x)] for x in f_opts if _fid(x) in alt_of}
+        model_opts = {x for x in h_opts if _fid(x) == name}
+        keys = [a[0] for a in dd["alts"]]
+        sp = setup_ops[0][0]
+        x_sel = _chosen(sp[2] if sp[0] == "parse" else [], model_opts, keys, dd["default"])
+        y_sel = _chosen(argv, model_opts, keys, dd["default"])
+        sub_ok = len(frozen) == 1 and len(wanted) == 1 and frozen != wanted and frozen == {x_sel} and wanted == {y_sel}
+        sub_prefix = f"{dest}.{name}"
+    if opt_diff - late_part - (sub_part if sub_ok else set()):
+        return unexplained                                    # options differ in a way none of the mechanisms accounts for
+
+    # (config files) a.my_x: the history's value is the one the files had established when the set-up ran (frozen) resp. the
+    # one an EARLIER call's files left behind (persist); the fresh value is this call's own
+    cfg_label = None
+    if cfgarg and both_ok and not any(_fid(t) == "my_x" for t in argv if t.startswith("-")):
+        dflt = [d for c, dst, _ in adds if dst == "a" for n, kd, d in CLASSES[c] if n == "my_x"]
+        got, fresh_val = dict(map(tuple, r[1])).get("a.my_x"), dict(map(tuple, f[1])).get("a.my_x")
+        own = _files_applied(argv)
+        if dflt and fresh_val == f"int:{own[-1] if own else dflt[0]}":
+            live, frozen_at = None, None
+            for p, q in since:
+                if p[0] == "parse":
+                    v = _files_applied(p[2])
+                    live = v[-1] if v else live
+                if frozen_at is None and q.get("done_after") and p[0] in ("parse", "print_help"):
+                    frozen_at = ("set", live)
+            if o.get("done_before") and frozen_at is not None and got == f"int:{frozen_at[1] if frozen_at[1] is not None else dflt[0]}":
+                cfg_label = "setup-frozen:config-defaults"
+            elif not o.get("done_before") and live is not None and not own and got == f"int:{live}":
+                cfg_label = "config-defaults-persist"
+
+    used = set()
+    if both_ok:
+        if diff_keys is None:
+            return unexplained
+        for key in diff_keys:
+            if late_dests and any(key.startswith(d + ".") for _, d in late_dests):
+                used.add("late")
+            elif sub_ok and (key.startswith(sub_prefix) or key == "subgroups:" + sub_prefix):
+                used.add("sub")
+            elif key == "a.my_x" and cfg_label:
+                used.add("cfg")
+            else:
+                return unexplained
+    else:
+        alt_unreg = {x for x in sub_part if x in f_opts} if sub_ok else set()       # options of the alternative this argv selects
+        alt_stale = {x for x in sub_part if x in h_opts} if sub_ok else set()       # options of the frozen alternative
+        if r == ["exit", 2] and any(t in late_part for t in argv):          # whatever the fresh parser then makes of it
+            used.add("late")
+        elif r == ["exit", 2] and f[0] == "ok" and any(t in alt_unreg for t in argv):
+            used.add("sub")
+        elif r[0] == "ok" and f == ["exit", 2] and any(t in alt_stale for t in argv):
+            used.add("sub")
+        elif r == ["raise", "AttributeError"] and "_remove_subgroups_from_namespace" in o.get("tb", []) \
+                and late_part and any(kd == "sub" for c, _ in late_dests for _, kd, _ in CLASSES[c]):
+            used.add("late")
+        else:
+            return unexplained
+    if "late" in used:
+        return "setup-frozen:late-add"
+    if "sub" in used:
         return "setup-frozen:subgroup"
-    if cfgarg and o.get("done_before") and (names_file(op[2]) or file_before) and h_opts == f_opts:
-        return "setup-frozen:config-defaults"
-    if cfgarg and file_before and h_opts == f_opts:
-        return "config-defaults-persist"
-    return f"unexplained:{kind(f)}->{kind(r)}"
+    if "cfg" in used:
+        return cfg_label
+    return unexplained
 
 
 def py_spec(case, obs):
     d = divergences(case, obs)
     if not d:
         return None
-    k, _ = d[0]
+    k, why = d[0]
     op, o, fr = case["ops"][k], obs["obs"][k], obs["fresh"][k]
+    if why in ("namespace-extra", "stream", "aliased"):
+        return (f"operation {k} = parse(parser {op[1]}, {op[2]}): same dataclass values as a fresh interpreter but {why} differs: "
+                f"extra={o.get('extra')} stream={o.get('stream')} aliased={o.get('aliased')} vs fresh extra={fr.get('extra')} "
+                f"stream={fr.get('stream')} [{classify(case, obs, k, why)}]")
     return (f"operation {k} = parse(parser {op[1]}, {op[2]}) answered {o['r']}; a fresh interpreter answers "
-            f"{None if fr is None else fr['r']} for the same definition and argv [{classify(case, obs, k)}]")
+            f"{None if fr is None else fr['r']} for the same definition and argv [{classify(case, obs, k, why)}]")
 
 
 def signature(case, obs, reason):
     d = divergences(case, obs)
     if not d:
         return "coq-spec-only"
-    return classify(case, obs, d[0][0])
+    return classify(case, obs, d[0][0], d[0][1])
 
 
 def nontrivial(case, obs):
@@ -667,7 +816,10 @@ def features(case, obs):
             "has_help": any(p[0] in ("print_help", "format_help") for p in ops),
             "cfgarg": any(p[0] == "construct" and p[3] for p in ops),
             "last_parse": outs[-1] if outs else "none",
-            "verdict": classify(case, obs, d[0][0]).split(":")[0] if d else "independent"}
+            "verdict": classify(case, obs, d[0][0], d[0][1]).split(":")[0] if d else "independent",
+            "aliased_result": any(o.get("aliased") for o in obs["obs"]),
+            "config_path_attr_differs": any(p[0] == "parse" and fr is not None and o.get("extra") != fr.get("extra")
+                                            for p, o, fr in zip(ops, obs["obs"], obs["fresh"]))}
 
 
 def coq_cfg(c):
